@@ -283,7 +283,7 @@ def gen_meta(rng, richness=None):
             vis['edgecolor'] = c
             vis['facecolor'] = c if rng.random() < 0.8 else rng.choice(COLORS)
         elif k == 'linewidth':
-            vis['linewidth'] = rng.choice([1, 2, 3, 4, 1.5, 0.5])
+            vis['linewidth'] = rng.choice([1, 2, 3, 4, 1.5, 0.5, 2.0000125, 1.23456789])
         elif k == 'linestyle':
             vis['linestyle'] = rng.choice(['dashed', '--', 'solid', [0, [8, 3]], [0, [2, 4]], [0, [3, 1, 1, 1]]])
         elif k == 'dash':
@@ -303,11 +303,11 @@ def gen_meta(rng, richness=None):
         elif k == 'marker':
             vis['marker'] = rng.choice(MARKERS)
             if rng.random() < 0.6:
-                vis['markersize'] = rng.choice([5, 11, 20, 7.5])
+                vis['markersize'] = rng.choice([5, 11, 20, 7.5, 14.0, 11.0])
         elif k == 'mew':
-            vis['markeredgewidth'] = rng.choice([1, 2, 3])
+            vis['markeredgewidth'] = rng.choice([1, 2, 3, 1.23456789])
         elif k == 'rotation':
-            vis['rotation'] = rng.choice([0, 30, 45.5, -90, 359.75, 1e-05])
+            vis['rotation'] = rng.choice([0, 30, 45.5, -90, 359.75, 1e-05, 123.456789012, 1234567.25])
         elif k == 'point':
             vis['point'] = rng.choice(['diamond 12', 'x', 'boxcircle 7', 'cross 3'])
         elif k == 'textangle':
